@@ -10,7 +10,7 @@ PROP = 'C11'
 def prof(seed):
     k = seed % 3
     base = dict(p_default=0.6, p_twodot=0.3, p_subdir=0.3, p_flag=0.05, p_opt=0.0, p_watch=0.05, p_phony=0.08, p_multi=0.3, user_symlinks=True)
-    ops = dict(uwrite=6, urm=4, build=9, repeat=2, force=2, edit_r=2, rm=1, doedit=1, dorm_last=1, doadd=1)
+    ops = dict(uwrite=6, urm=4, build=9, repeat=2, force=2, edit_r=2, rm=1, doedit=1, dorm_last=1, doadd=1, m_failedit=2)
     if k == 0:
         return gen.profile(ntgt=(2, 6), ops=ops, **base)
     if k == 1:
@@ -288,7 +288,7 @@ CASE = histcheck.HistCase(PROP, prof, {'user-file-touched', 'overbuild', 'underb
 
 RULE = ('histories over programs whose target names are matched by specific rules, default.<ext>.do in the same directory and in a parent '
         'directory; ops: build (-j1/-j4), forced redo, user creates a file at a target name, edits a generated target in place, replaces '
-        'it by rename (new inode), removes it again; dependents above the contested files. Oracles: (inode, size, mtime, bytes) of every '
+        'it by rename (new inode), removes it again; a rebuild that fails and leaves the old file, followed by a hand edit and the repair of the rule (`m_failedit`); dependents above the contested files. Oracles: (inode, size, mtime, bytes) of every '
         'user-owned file unchanged by every command; the script of a user-owned name never runs (trace); dependents see the user\'s bytes '
         '(content oracle); after the user removes the file the next build produces it again; a hand-edited generated target named on '
         'the command line draws the "you modified it" warning. Early-abort layer: redo gives up on a target before its script starts (TMPDIR points nowhere / the rule\'s first line is not text), '
